@@ -439,7 +439,12 @@ def task_krylov(cycle, prop=None):
         return ok
     clause(col, 'K5_matvec_applies_the_operator_to_a_fresh_zero_field_with_model_in_role_order', res, amv)
     clause(col, 'K6_source_never_written', res, lambda r: all(e['store'] is not store_of(r.state['s']) for e in r.mutations()))
-    return _pack(col, OPERATOR_CLAUSES if prop else None)
+    # C05: the cycling state (current directions and the iterators they are drawn from, levels, cycle type) belongs to multigrid(); krylov and its
+    # pre-conditioner wrapper hand `var` on and write nothing of it, so value and iterator cannot get out of step between two pre-conditioner calls
+    CYCLING = {'sc_dir', 'lr_dir', 'sc_cycle', 'lr_cycle', 'raw_sc_cycle', 'raw_lr_cycle', 'clevel', 'cycle', 'cycmax', 'maxcycle', 'max_level', 'sslsolver'}
+    clause(col, 'K7_krylov_and_its_preconditioner_wrapper_write_nothing_of_the_cycling_state', res,
+           lambda r: not [e for e in r.events if e['kind'] in ('setattr', 'setattr-opaque', 'delattr') and e['obj'] is r.state['var'] and e['attr'] in CYCLING])
+    return _pack(col, (OPERATOR_CLAUSES if prop == 'C02' else ('K7_',)) if prop else None)
 
 
 # ------------------------------------------------------------------ solve
@@ -783,6 +788,11 @@ def tasks(tier):
     for ssl, cyc in ((False, 'F'), ('bicgstab', 'F'), ('bicgstab', None)):
         for sup in (False, True):
             t.append(('contracts.c01', 'task_solve', dict(sslsolver=ssl, cycle=cyc, supplied=sup)))
+    # dependency closure: the residual token Res(s, e) means || s - A_spec e || for the model GIVEN only if the coefficients the solver reads from the
+    # VolumeModel are those of that model in every anisotropy case (C02: constructor, eta_y / eta_z accessors) -- re-run here, with the bounded check
+    # of the operator the real solver applies
+    from . import c02_model
+    t += c02_model.tasks(tier) + [('contracts.c02', 'task_concrete_solver', {})]
     return t
 
 
